@@ -33,7 +33,7 @@ theorem peerCount_spec (c0 : Config) (a0 : Option Nat) (cfgs : List Config) (ops
   constructor
   · rw [lastGood_eq]
     exact foldl_pc cfgs ops (init c0 a0) (by simp only [Sync, init]; exact refresh_idem _ _) (noSplit_iff hs)
-  · exact (inv_run c0 a0 cfgs (fun _ => True) ops (fun _ _ _ => trivial)).r.pcPos
+  · exact (inv_run c0 a0 cfgs (fun _ => True) ops (fun _ _ _ _ => trivial)).r.pcPos
 
 /-- **peerCount_after_callback** — whatever happened between a membership change and its callback
 (sampler creations, reloads, further changes): once the callback has run, the count in force is the
@@ -54,7 +54,7 @@ theorem peerCount_after_callback (c0 : Config) (a0 : Option Nat) (cfgs : List Co
   · rw [hpc, hn]; simp [refreshCount, hpos]
   · rw [hpc]
     rcases hbad with h | h <;> rw [h] <;> simp [refreshCount]
-  · exact (inv_run c0 a0 cfgs (fun _ => True) _ (fun _ _ _ => trivial)).r.pcPos
+  · exact (inv_run c0 a0 cfgs (fun _ => True) _ (fun _ _ _ _ => trivial)).r.pcPos
 
 /-- **goal_invariant (registry level)** — after any history of membership changes (callback
 delayed or not, failing and empty queries), creations on any worker, config swaps and reloads: every
@@ -68,7 +68,7 @@ theorem goal_invariant_registry (c0 : Config) (a0 : Option Nat) (cfgs : List Con
       | some c => i.goal = max (Int.tdiv c (run c0 a0 cfgs ops).peerCount) 1
       | none => i.goal = creationGoal i.creator.rate := by
   intro k id i hm hi ht
-  have inv := inv_run c0 a0 cfgs (fun _ => True) ops (fun _ _ _ => trivial)
+  have inv := inv_run c0 a0 cfgs (fun _ => True) ops (fun _ _ _ _ => trivial)
   cases hg : AList.get (run c0 a0 cfgs ops).goalCfg k with
   | some c => exact inv.r.goalTracked k id i c hm hi ht hg
   | none => exact inv.r.goalUntracked k id i hm hi ht hg
@@ -121,10 +121,11 @@ theorem goal_invariant_after_callback (c0 : Config) (a0 : Option Nat) (cfgs : Li
           i.goal = max (Int.tdiv s.d.rate n) 1 := by
   intro key ent hm hep s hs ht hu id hid
   have ho' : OpsIn (fun e => ':' ∉ e) (ops ++ [.peercb]) := by
-    intro w e hmem
+    intro op hmem e he
     rcases List.mem_append.mp hmem with h | h
-    · exact ho w e h
-    · simp at h
+    · exact ho op h e he
+    · simp only [List.mem_singleton] at h
+      subst h; cases he
   obtain ⟨i, hi, hg⟩ := goal_invariant_colonFree c0 a0 cfgs _ ho' key ent hm hep s hs ht hu id hid
   rw [(peerCount_after_callback c0 a0 cfgs ops).1 n hn hpos] at hg
   exact ⟨i, hi, hg⟩
@@ -142,10 +143,11 @@ theorem goal_invariant_overlapping_callbacks (c0 : Config) (a0 : Option Nat) (cf
         ∃ i, (run c0 a0 cfgs (ops ++ [.peercb, .peerset n2, .peercb])).insts[id]? = some i ∧
           i.goal = max (Int.tdiv s.d.rate n2) 1 := by
   have ho' : OpsIn (fun e => ':' ∉ e) (ops ++ [.peercb, .peerset n2]) := by
-    intro w e hmem
+    intro op hmem e he
     rcases List.mem_append.mp hmem with h | h
-    · exact ho w e h
-    · simp at h
+    · exact ho op h e he
+    · simp only [List.mem_cons, List.not_mem_nil, or_false] at h
+      rcases h with h | h <;> subst h <;> cases he
   have hsrc : srcAnswer a0 (ops ++ [.peercb, .peerset n2]) = some n2 := by
     simp [srcAnswer, List.foldl_append, srcStep]
   have e : ops ++ [Op.peercb, .peerset n2, .peercb] = (ops ++ [.peercb, .peerset n2]) ++ [.peercb] := by simp
